@@ -459,11 +459,6 @@ def run(rep, tier):
     colines_ranges_rule(rep, T, "R5")
     # wiring: which decoder the public methods use
     C = c311.ns.get("Code311")
-    for meth, target in (("co_positions", "parse_location_entries"), ("co_lines", "parse_linetable")):
-        m = C.lookup(meth) if isinstance(C, ClassRef) else None
-        src = ast.unparse(m.node) if isinstance(m, FuncRef) else ""
-        rep.ob("R3", "xdis.codetype.code311.Code311.%s" % meth, "uses:%s" % target, ("%s(self.co_linetable, self.co_firstlineno)" % target) in src.replace("\n", " ").replace("  ", ""),
-               expected="%s(self.co_linetable, self.co_firstlineno)" % target, derived=src[-80:])
     # co_positions() expands each decoded entry to one (lineno, end_lineno, col, end_col) tuple per code unit, like the native method
     cp = C.lookup("co_positions") if isinstance(C, ClassRef) else None
     if not isinstance(cp, FuncRef):
@@ -494,5 +489,57 @@ def run(rep, tier):
         got = "returns %s" % [e.kind for e in sp.effects][:3]
     rep.ob("R3", cp.qualname, "one-tuple-per-code-unit", shape_ok, expected="for each entry (length, l, el, c, ec): `length` times (l, el, c, ec)", derived=got,
            msg="Code311.co_positions() does not produce one (lineno, end_lineno, col_offset, end_col_offset) tuple per code unit as types.CodeType.co_positions() does")
+    # the decoders are functions of the *current* fields: a second call after the fields changed (replace(), assignment) decodes the new table
+    for meth, target in (("co_positions", "parse_location_entries"), ("co_lines", "parse_linetable")):
+        mref = C.lookup(meth)
+        if not isinstance(mref, FuncRef):
+            raise AnalysisError("anchor vanished: xdis.codetype.code311.Code311.%s" % meth)
+        calls = []
+
+        def dec_hook(spec, name, fv, args, kw, node, target=target, calls=calls):
+            if name.endswith(target):
+                calls.append(tuple(show(a) for a in args))
+                return Sym("decoded%d" % len(calls), "list")
+            return NotImplemented
+        me2 = Instance(C)
+        me2.attrs.update(co_linetable=Sym("table", "bytes"), co_firstlineno=Sym("first", "int"))
+        sp1 = Spec(F, hooks=[dec_hook])
+        sp1.run(mref, [me2])
+        n_first = len(calls)
+        rep.ob("R3", "xdis.codetype.code311.Code311.%s" % meth, "uses:%s" % target, calls == [("table", "first")],
+               expected="%s(self.co_linetable, self.co_firstlineno)" % target, derived=calls[:3],
+               msg="Code311.%s() does not hand its own table and first line to %s" % (meth, target))
+        kept = sorted(a for a in me2.attrs if a not in ("co_linetable", "co_firstlineno"))
+        me2.attrs.update(co_linetable=Sym("table2", "bytes"), co_firstlineno=Sym("first2", "int"))
+        sp2 = Spec(F, hooks=[dec_hook])
+        out2 = sp2.run(mref, [me2])
+        second = calls[n_first:]
+        stale = []
+        txt = []
+
+        def scan(effects, guards):
+            for e in effects:
+                if e.kind == "loop":
+                    ls = e.args[3]
+                    g_ = " ".join(show(x) for x in tuple(guards) + tuple(e.guards or ()))
+                    if ("decoded" in show(ls.cond)) and not any("decoded%d" % k in show(ls.cond) for k in range(n_first + 1, len(calls) + 1)) and "table2" not in g_ and "first2" not in g_:
+                        stale.append("iterates %s" % show(ls.cond))
+                    scan(ls.effects, tuple(guards) + tuple(e.guards or ()))
+                elif e.kind in ("yield", "ret"):
+                    txt.append(show(e.args[0]))
+        scan(sp2.effects, ())
+        from ..sve import Ret as _Ret, leaves as _leaves
+        for g_, leaf in _leaves(out2):
+            if not isinstance(leaf, _Ret):
+                continue
+            t_ = show(leaf.value)
+            gs = " ".join(show(x) for x in g_)
+            if "decoded" in t_ and not any("decoded%d" % k in t_ for k in range(n_first + 1, len(calls) + 1)) and "table2" not in gs and "first2" not in gs:
+                stale.append("returns %s" % t_)
+        fresh_ok = bool(second) and all(c == ("table2", "first2") for c in second) and not stale
+        rep.ob("R3", mref.qualname, "second-call-decodes-current-fields", fresh_ok, expected="%s(<current co_linetable>, <current co_firstlineno>) on every call" % target,
+               derived={"first call": calls[:n_first], "kept on the object": kept, "second call after both fields changed": second, "stale": stale[:3]},
+               msg="Code311.%s() after co_linetable / co_firstlineno changed (replace(), assignment) %s: the answer belongs to the old table" % (
+                   meth, "; ".join(stale[:2]) or ("calls %s" % (second or "no decoder",))))
     rep.assumptions = ["Objects/locations.md and Objects/exception_handling_notes.txt of CPython 3.11-3.13 as transcribed in DESIGN.md Appendix A.5",
                        "co_lines() ranges may be split more finely than CPython's (line per code unit is what is decided)"]
